@@ -20,6 +20,8 @@ import (
 	"math/rand"
 	"os"
 	"path/filepath"
+	"runtime/debug"
+	"runtime/pprof"
 	"sort"
 	"strconv"
 	"sync"
@@ -43,9 +45,15 @@ type history struct {
 	Index int    `json:"index"`
 	Map   string `json:"map"`
 	Ops   []hop  `json:"ops"`
-	// DMode: how densely d is enumerated: "tail3" (bytewise over the last 3 records,
-	// boundaries elsewhere) or "all" (bytewise everywhere)
+	// DMode: how densely d is enumerated: "tail2"/"tail3" (bytewise over the last 2/3
+	// records, record boundaries elsewhere) or "all" (bytewise everywhere)
 	DMode string `json:"dmode"`
+	// JMode: "all" = every j <= records inside d; "near" = for torn d only
+	// j in {m, m-1, m-2, 0} (m = records completely inside d), every j at record boundaries
+	JMode string `json:"jmode"`
+	// Reload: "all" = second reload on every image; "half" = on every boundary image and
+	// on torn images with (d+j) even
+	Reload string `json:"reload"`
 }
 
 const (
@@ -78,13 +86,13 @@ func blobOf(opIndex int, o hop) lib.BlobSpec {
 func genHistories(r *lib.Run) []history {
 	rng := r.SubRng("c03-histories")
 	var out []history
-	add := func(n, maxOps int, kind, dmode string, allowBig bool) {
+	add := func(n, maxOps int, kind, dmode, jmode, reload string, allowBig bool) {
 		for i := 0; i < n; i++ {
 			hi := len(out)
 			nops := 4 + rng.Intn(maxOps-3)
-			h := history{Index: hi, Map: kind, DMode: dmode}
+			h := history{Index: hi, Map: kind, DMode: dmode, JMode: jmode, Reload: reload}
 			live := map[int]int{} // key -> size of live blob (-1 none)
-			withEmpty := hi%6 == 4
+			withEmpty := hi%4 == 2
 			emptyDone := false
 			for len(h.Ops) < nops {
 				pos := len(h.Ops)
@@ -135,11 +143,11 @@ func genHistories(r *lib.Run) []history {
 		}
 	}
 	if r.Quick() {
-		add(20, 12, "memory", "tail3", true)
+		add(4, 8, "memory", "tail2", "near", "half", true)
 	} else {
-		add(36, 14, "memory", "all", false)
-		add(60, 30, "memory", "tail3", true)
-		add(16, 12, "leveldb", "tail3", true)
+		add(10, 12, "memory", "tail3", "all", "all", true)
+		add(2, 8, "memory", "all", "all", "half", false)
+		add(2, 8, "leveldb", "tail2", "near", "half", true)
 	}
 	return out
 }
@@ -268,11 +276,14 @@ func (x *runner) dPositions(rng *rand.Rand) []int64 {
 		set[x.end[i]] = true
 	}
 	from := 1
-	if x.h.DMode == "tail3" {
+	switch x.h.DMode {
+	case "tail3":
 		from = n - 2
-		if from < 1 {
-			from = 1
-		}
+	case "tail2":
+		from = n - 1
+	}
+	if from < 1 {
+		from = 1
 	}
 	for i := from; i <= n; i++ {
 		a, b := x.end[i-1], x.end[i]
@@ -502,6 +513,10 @@ func (x *runner) image(d int64, j int) {
 		}
 	}
 	check("after-write")
+	if x.h.Reload == "half" && d != x.end[mfull] && (d+int64(j))%2 != 0 {
+		r.Count("images_completed_without_second_reload", 1)
+		return
+	}
 
 	// 4. reload once more: same answers, still writable
 	v1 := x.store.GetVolume(1)
@@ -599,6 +614,39 @@ func (x *runner) judgeRead(k int, a answer, j, mfull int, phase string, detail f
 	}
 }
 
+// idxAhead loads an image whose index has one entry more than the data file has
+// complete records (possible only if the OS persisted the index append before the
+// data append). Outside the property's quantifier: outcomes are only counted.
+func (x *runner) idxAhead(d int64, j int) {
+	r := x.r
+	r.Case(map[string]interface{}{"history": x.h, "d": d, "j": j, "recorded_only": "index ahead of data"})
+	clearDir(x.dir)
+	r.Must(ioutil.WriteFile(filepath.Join(x.dir, "1.dat"), x.dat[:d], 0644), "write image dat")
+	r.Must(ioutil.WriteFile(filepath.Join(x.dir, "1.idx"), x.idx[:j*types.NeedleMapEntrySize], 0644), "write image idx")
+	if x.vif != nil {
+		r.Must(ioutil.WriteFile(filepath.Join(x.dir, "1.vif"), x.vif, 0644), "write image vif")
+	}
+	where := "record-missing"
+	switch {
+	case d == x.end[j-1]:
+	case x.end[j]-d <= 8:
+		where = "torn-in-last-8-bytes"
+	default:
+		where = "torn"
+	}
+	err := x.store.MountVolume(1)
+	v := x.store.GetVolume(1)
+	switch {
+	case err != nil || v == nil:
+		r.Count("recorded.idx_ahead."+where+".load_failed", 1)
+	case v.IsReadOnly():
+		r.Count("recorded.idx_ahead."+where+".readonly", 1)
+	default:
+		r.Count("recorded.idx_ahead."+where+".writable", 1)
+	}
+	x.cleanupVolume()
+}
+
 func (x *runner) cleanupVolume() {
 	if x.store.GetVolume(1) != nil {
 		_ = x.store.DeleteVolume(1) // Destroy: ends the worker goroutine, removes the files
@@ -627,6 +675,9 @@ func runHistory(r *lib.Run, h history, only *[2]int64) {
 	}
 	x.openImageStore()
 	defer func() { x.store.Close(); x.stop() }()
+	if g, err := strconv.Atoi(os.Getenv("VERIF_C03_GOGC")); err == nil {
+		debug.SetGCPercent(g)
+	}
 	n := len(h.Ops)
 	if only != nil {
 		x.image(only[0], int(only[1]))
@@ -643,12 +694,20 @@ func runHistory(r *lib.Run, h history, only *[2]int64) {
 				mfull = i
 			}
 		}
+		boundary := d == x.end[mfull]
 		for j := 0; j <= mfull; j++ {
+			if x.h.JMode == "near" && !boundary && !(j >= mfull-2 || j == 0) {
+				continue
+			}
 			x.image(d, j)
 			quietLog(r)
 			if r.Violations() > 40 {
 				return
 			}
+		}
+		// outside the quantifier (index ahead of the data file): recorded, never decisive
+		if mfull < n && (boundary || (d-x.end[mfull])%9 == 1 || x.end[mfull+1]-d <= 12) {
+			x.idxAhead(d, mfull+1)
 		}
 	}
 	last := h.Ops[n-1]
@@ -658,7 +717,12 @@ func runHistory(r *lib.Run, h history, only *[2]int64) {
 
 func main() {
 	r := lib.Start("C03", "fault_enumeration")
-	r.SetRule("a case is a crash image (history, d, j): the .dat of a generated history (writes/overwrites/deletes over 4 keys, records of 40 B to 13 KiB, some zero-length payloads) cut to d bytes and its .idx cut to j entries, for every j <= number of records completely inside d; d ranges over every record boundary and bytewise over the last 3 records (quick) or all records (thorough 'all' histories); records longer than 600 B are cut at every byte of their first 28 and last 40 bytes, 2 bytes around every 4 KiB page border and 24 seeded positions. Each image is loaded by the real code, every key read and judged against the model states reachable between op j and the last complete record, a new key and an overwrite are written and read, the volume is reloaded and read again. distinct = distinct (history, d, j); non-trivial = every image except the clean one (d = full file, j = all entries)")
+	if pf := os.Getenv("VERIF_PPROF"); pf != "" {
+		f, _ := os.Create(pf)
+		_ = pprof.StartCPUProfile(f)
+		defer pprof.StopCPUProfile()
+	}
+	r.SetRule("a case is a crash image (history, d, j): the .dat of a generated history (writes/overwrites/deletes over 4 keys, records of 40 B to 13 KiB, some zero-length payloads, tails ending in a tombstone / a tombstone followed by a write / a multi-page record) cut to d bytes and its .idx cut to j entries, j <= m = number of records completely inside d. d ranges over every record boundary and bytewise over the last 2 records (quick: 4 histories of 4-8 ops), the last 3 records (thorough: 10 histories of 4-12 ops) or all records (thorough: 2 histories of 4-8 ops; 2 more leveldb-map histories like the quick ones); records longer than 600 B are cut at every byte of their first 28 and last 40 bytes, 2 bytes around every 4 KiB page border and 24 seeded positions. j ranges over all 0..m (thorough memory-map histories; every boundary d in all tiers) or over {m, m-1, m-2, 0} for torn d (quick, leveldb histories). Each image is loaded by the real code, every key read and judged against the model states reachable between op j and the last complete record, a new key and an overwrite are written and read, the volume is reloaded and read again (in 'half' mode the second reload is done for boundary images and torn images with d+j even). distinct = distinct (history, d, j); non-trivial = every image except the clean one (d = full file, j = all entries)")
 	r.Assume("crash images are prefix truncations only (the quantifier's model): no sector reordering inside a record; .vif and super block intact; an .ldb directory is absent in the image (rebuilt from the .idx)")
 	r.Assume("images are loaded with Store.MountVolume on a long-lived Store (same NewVolume/load path as a fresh Store, without leaking a DiskLocation goroutine per image)")
 	r.Assume("a read answering not-found for a deleted key (or deleted for an absent one) is accepted: both mean 'no data'")
@@ -683,6 +747,7 @@ func main() {
 			r.Must(fmt.Errorf("bad history index %q", r.Args[1]), "child arguments")
 		}
 		runHistory(r, hs[i], nil)
+		pprof.StopCPUProfile()
 		r.Finish(0)
 	}
 
@@ -690,7 +755,7 @@ func main() {
 	if self == "" {
 		self, _ = os.Executable()
 	}
-	par := 6
+	par := 8
 	if p, err := strconv.Atoi(os.Getenv("VERIF_PAR")); err == nil && p > 0 {
 		par = p
 	}
@@ -723,7 +788,7 @@ func main() {
 	// aggregate the per-worker counters
 	agg := map[string]int64{}
 	for _, name := range []string{"crash_images", "histories", "d_positions", "images_loaded_writable", "images_readonly",
-		"images_completed", "writes_after_crash_ok", "overwrites_after_crash_ok", "reads_exact_content", "reads_gone_as_expected"} {
+		"images_completed", "images_completed_without_second_reload", "writes_after_crash_ok", "overwrites_after_crash_ok", "reads_exact_content", "reads_gone_as_expected"} {
 		for w := 0; w < par; w++ {
 			agg[name] += r.Counter(fmt.Sprintf("w%d.%s", w, name))
 		}
@@ -740,11 +805,22 @@ func main() {
 			}
 		}
 	}
+	recorded := map[string]int64{}
+	for _, wh := range []string{"record-missing", "torn", "torn-in-last-8-bytes"} {
+		for _, oc := range []string{"writable", "readonly", "load_failed"} {
+			for w := 0; w < par; w++ {
+				if c := r.Counter(fmt.Sprintf("w%d.recorded.idx_ahead.%s.%s", w, wh, oc)); c > 0 {
+					recorded[wh+"."+oc] += c
+				}
+			}
+		}
+	}
+	r.Note("recorded_only_index_ahead_of_data_images", recorded)
 	r.Note("totals", agg)
 	r.Note("images_by_class", classes)
 	r.Note("distinct_crash_images", agg["crash_images"])
 	r.Note("histories_generated", len(hs))
-	if agg["crash_images"] == 0 || agg["images_completed"] == 0 || agg["reads_exact_content"] == 0 || agg["writes_after_crash_ok"] == 0 {
+	if agg["crash_images"] == 0 || agg["images_completed"]+agg["images_completed_without_second_reload"] == 0 || agg["images_completed"] == 0 || agg["reads_exact_content"] == 0 || agg["writes_after_crash_ok"] == 0 {
 		r.Inconclusive("no crash image went through the whole oracle")
 	}
 	if int(agg["histories"]) != len(hs) && r.Violations() == 0 {
